@@ -195,6 +195,18 @@ func genSchedCase(t *rapid.T) SchedCase {
 			c.Programs = append(c.Programs, genProgram(t, c.NKeys, 4))
 		}
 	}
+	// in a third of the cases some writes carry an expiry 1 ms ahead: miniredis is not aged here, so such a record stays in
+	// Redis with an ExpiresAt in the past (what a server with a lagging clock holds); later writes without expiry must stick
+	if rapid.IntRange(0, 2).Draw(t, "lagging") == 0 {
+		for ti := range c.Programs {
+			for oi := range c.Programs[ti] {
+				op := &c.Programs[ti][oi]
+				if (op.K == "put" || op.K == "create" || op.K == "cas") && rapid.IntRange(0, 2).Draw(t, "short") == 0 {
+					op.Short, op.Exp = true, false
+				}
+			}
+		}
+	}
 	c.Order = rapid.SliceOfN(rapid.IntRange(0, 11), 0, 60).Draw(t, "order")
 	return c
 }
